@@ -366,6 +366,7 @@ func policies(cps []concPolicy, r *result) {
 type closureItem struct {
 	YAML  string   `json:"yaml"`
 	Names []string `json:"names"`
+	Arch  string   `json:"arch"` // GOARCH of the profiled binary: "amd64" (default) or "386"
 }
 
 func closure(items []closureItem, r *result) {
@@ -381,7 +382,11 @@ func closure(items []closureItem, r *result) {
 			bad("profile %d does not load through the configuration path: %v\n%s", i, err, it.YAML)
 			continue
 		}
-		seccomp.VerifSetArch(pol, arch.X86_64)
+		a := arch.X86_64
+		if it.Arch == "386" {
+			a = arch.I386
+		}
+		seccomp.VerifSetArch(pol, a)
 		insts, err := pol.Assemble()
 		if err != nil {
 			bad("profile %d does not compile: %v\n%s", i, err, it.YAML)
@@ -404,14 +409,14 @@ func closure(items []closureItem, r *result) {
 			r.NonTrivial++
 		}
 		nrs := []int{}
-		for n := range arch.X86_64.SyscallNumbers {
+		for n := range a.SyscallNumbers {
 			nrs = append(nrs, n)
 		}
 		nrs = append(nrs, 5000, 0x3fffffff, 336, 400)
 		for _, n := range nrs {
-			d := bpfvm.Data{uint32(n), uint32(arch.X86_64.ID)}
+			d := bpfvm.Data{uint32(n), uint32(a.ID)}
 			got, _, verr := bpfvm.Run(raw, &d)
-			name, listed := arch.X86_64.SyscallNumbers[n]
+			name, listed := a.SyscallNumbers[n]
 			want := uint32(0x00050001)
 			if listed && allowed[name] {
 				want = 0x7fff0000
